@@ -519,60 +519,91 @@ def ctype(r):
     return CTYPE[r] if r in CTYPE else FTYPES[r][0]
 
 
+def write_table(path, name, ch, gates):
+    with open(path, "w") as f:
+        f.write(HARNESS_COMMON)
+        for ins in ch:
+            for s in ("1", "2"):
+                if ins.get("named" + s):
+                    f.write(f"struct Named{ins['id']}_{s} : {unit_expr(ins['n' + s], ins['d' + s])} {{}};\n")
+        f.write(f"extern const Entry {name}[] = {{\n")
+        for ins in ch:
+            u = [f"Named{ins['id']}_{s}" if ins.get("named" + s) else unit_expr(ins["n" + s], ins["d" + s]) for s in ("1", "2")]
+            if ins["r1"] in FTYPES or ins["r2"] in FTYPES:
+                f.write(f"  FENTRY({ins['id']}, {ctype(ins['r1'])}, {ctype(ins['r2'])}, {u[0]}, {u[1]}),\n")
+            else:
+                co, oo = gates[ins["id"]]
+                f.write(f"  ENTRY({ins['id']}, {ctype(ins['r1'])}, {ctype(ins['r2'])}, {u[0]}, {u[1]}, "
+                        f"{'true' if co else 'false'}, {'true' if oo else 'false'}),\n")
+        f.write("};\n")
+
+
 def write_harness(wd, insts, gates, nchunks=16):
-    """gates: id -> (common_ok, own_ok) as predicted by the model."""
+    """gates: id -> (common_ok, own_ok) as predicted by the model.  Returns the list of (file, table name, instances)."""
     chunks = [insts[i::nchunks] for i in range(nchunks)]
     chunks = [c for c in chunks if c]
-    files = []
+    tables = []
     for ci, ch in enumerate(chunks):
         p = os.path.join(wd, f"chunk{ci}.cc")
-        with open(p, "w") as f:
-            f.write(HARNESS_COMMON)
-            for ins in ch:
-                for s in ("1", "2"):
-                    if ins.get("named" + s):
-                        f.write(f"struct Named{ins['id']}_{s} : {unit_expr(ins['n' + s], ins['d' + s])} {{}};\n")
-            f.write(f"extern const Entry table{ci}[] = {{\n")
-            for ins in ch:
-                u = [f"Named{ins['id']}_{s}" if ins.get("named" + s) else unit_expr(ins["n" + s], ins["d" + s]) for s in ("1", "2")]
-                if ins["r1"] in FTYPES or ins["r2"] in FTYPES:
-                    f.write(f"  FENTRY({ins['id']}, {ctype(ins['r1'])}, {ctype(ins['r2'])}, {u[0]}, {u[1]}),\n")
-                else:
-                    co, oo = gates[ins["id"]]
-                    f.write(f"  ENTRY({ins['id']}, {ctype(ins['r1'])}, {ctype(ins['r2'])}, {u[0]}, {u[1]}, "
-                            f"{'true' if co else 'false'}, {'true' if oo else 'false'}),\n")
-            f.write("};\n")
-        files.append(p)
+        write_table(p, f"table{ci}", ch, gates)
+        tables.append((p, f"table{ci}", ch))
+    return {"tables": tables, "gates": gates}
+
+
+def write_main(wd, live):
     p = os.path.join(wd, "main.cc")
     with open(p, "w") as f:
         f.write(HARNESS_COMMON)
-        for ci, ch in enumerate(chunks):
-            f.write(f"extern const Entry table{ci}[];\n")
-        f.write("const Entry* const chunks[] = {" + ", ".join(f"table{ci}" for ci in range(len(chunks))) + "};\n")
-        f.write("const int chunk_sizes[] = {" + ", ".join(str(len(ch)) for ch in chunks) + "};\n")
-        f.write(f"const int n_chunks = {len(chunks)};\n")
+        for (_, name, ch) in live:
+            f.write(f"extern const Entry {name}[];\n")
+        f.write("const Entry* const chunks[] = {" + ", ".join(name for (_, name, _) in live) + "};\n")
+        f.write("const int chunk_sizes[] = {" + ", ".join(str(len(ch)) for (_, _, ch) in live) + "};\n")
+        f.write(f"const int n_chunks = {len(live)};\n")
         f.write(HARNESS_MAIN)
-    files.append(p)
-    return files
+    return p
 
 
 def build_harness(wd, files, compiler, std, tag):
-    def comp(src):
+    """Returns (exe, failures, dead_ids).  A table that does not compile is split into one TU per instance; the
+    instances that still do not compile are dropped from this configuration (and reported by the caller), so
+    that the surviving instances can still produce concrete failing inputs."""
+    def comp(t):
+        src = t[0]
         obj = src[:-3] + f".{tag}.o"
         rc, out = cxx(src, obj, compiler=compiler, std=std, extra=["-c"])
-        return (src, obj, rc, out)
-    res = pmap(comp, files)
-    objs = []
-    for src, obj, rc, out in res:
-        if rc != 0:
-            return None, {"src": src, "output": out[-4000:]}
-        objs.append(obj)
+        return (t, obj, rc, out)
+    res = pmap(comp, files["tables"])
+    live, objs, failures, dead = [], [], [], []
+    retry = []
+    for t, obj, rc, out in res:
+        if rc == 0:
+            live.append(t)
+            objs.append(obj)
+        else:
+            for ins in t[2]:
+                p = os.path.join(wd, f"inst{ins['id']}.cc")
+                write_table(p, f"tableI{ins['id']}", [ins], files["gates"])
+                retry.append((p, f"tableI{ins['id']}", [ins]))
+    for t, obj, rc, out in pmap(comp, retry):
+        if rc == 0:
+            live.append(t)
+            objs.append(obj)
+        else:
+            dead.append(t[2][0]["id"])
+            failures.append({"src": t[0], "instance": t[2][0], "output": out[-3000:]})
+    if not live:
+        return None, failures or [{"src": "all", "output": "no table compiles"}], dead
+    mainp = write_main(wd, live)
+    t, obj, rc, out = comp((mainp, "main", []))
+    if rc != 0:
+        return None, [{"src": mainp, "output": out[-4000:]}], dead
+    objs.append(obj)
     exe = os.path.join(wd, f"harness_{tag}")
     san = SAN_CLANG if compiler.startswith("clang") else SAN_GCC
     rc, out, err = run([compiler] + san + objs + ["-o", exe])
     if rc != 0:
-        return None, {"src": "link", "output": (out + err)[-4000:]}
-    return exe, None
+        return None, [{"src": "link", "output": (out + err)[-4000:]}], dead
+    return exe, failures, dead
 
 
 def run_harness(exe, lines, shards=16):
@@ -888,27 +919,33 @@ def explore(prop, tier, seed, rng, wd):
     tvals = {t["idx"]: gen_triangle_values(rng, t, mu, 40 if tier == "quick" else 200) for t in tri}
     for (compiler, std, tag) in configs:
         cfg = f"{compiler} -std={std}"
-        exe, err = build_harness(wd, files, compiler, std, tag)
-        if exe is None:
+        exe, fails, dead = build_harness(wd, files, compiler, std, tag)
+        for fl in (fails or [])[:3]:
             violations.append({
                 "what": f"harness does not compile under {cfg}: an operation the model's policy gate admits is rejected "
-                        f"by the headers (or the public operator API changed)",
-                "class": "harness-build", "rec": {"kind": "build", "config": cfg}, "no_input": True,
-                "broken": "correspondence: Au.Mixed.commonCompiles / ownCompiles vs the policy static_assert", "detail": err})
+                        f"by the headers (or the public operator API changed)" + (f" [{len(dead)} instance(s) dropped]" if dead else ""),
+                "class": "harness-build", "rec": dict(base_rec(fl["instance"], cfg) if "instance" in fl else {"config": cfg}, kind="build"),
+                "no_input": True,
+                "broken": "correspondence: Au.Mixed.commonCompiles / ownCompiles vs the policy static_assert", "detail": fl})
+        if exe is None:
             continue
+        dead = set(dead)
+        stats["dropped_instances"] = stats.get("dropped_instances", 0) + len(dead)
         stats["configs"].append(cfg)
         cpp20 = std == "c++20"
         lines = []
-        for i in insts + finsts:
+        linsts = [i for i in insts if i["id"] not in dead]
+        lfinsts = [i for i in finsts if i["id"] not in dead]
+        for i in linsts + lfinsts:
             lines.append(f"I {i['id']}")
-        for i in insts:
+        for i in linsts:
             c = common_ty(i["r1"], i["r2"])
             k1, k2 = mu[i["id"]]["k1"], mu[i["id"]]["k2"]
             for wdw in wins[i["id"]]:
                 lines.append(f"S {i['id']} {k1} {k2} {wdw[0]} {wdw[1]} {wdw[2]} {wdw[3]} {INT_TYPES[c][1]} {int(INT_TYPES[c][2])}")
         # points: pre-filtered by the oracle (out-of-scope cases are counted, never executed)
         preq = []
-        for i in insts:
+        for i in linsts:
             co, oo = gates[i["id"]]
             k1, k2 = int(mu[i["id"]]["k1"]), int(mu[i["id"]]["k2"])
             for (v1, v2) in pts[i["id"]]:
@@ -920,12 +957,12 @@ def explore(prop, tier, seed, rng, wd):
                         stats["skipped_out_of_scope"] += 1
                         continue
                     preq.append((i["id"], op, v1, v2, o))
-        treq = triangle_requests(tri, tvals, mu, gates, preq, stats)
+        treq = triangle_requests([t for t in tri if not any(x["id"] in dead for x in t["insts"])], tvals, mu, gates, preq, stats)
         for (iid, op, v1, v2, o) in preq:
             lines.append(f"P {iid} {OPCODE[op]} {v1} {v2}")
         pres = {}
         freq = []
-        for i in finsts:
+        for i in lfinsts:
             for (v1, v2) in fpts[i["id"]]:
                 for op in OPS_COMMON + (["cmp3"] if (cpp20 and i["r1"] in FTYPES and i["r2"] in FTYPES) else []):
                     freq.append((i["id"], op, v1, v2))
@@ -1329,9 +1366,10 @@ def replay(prop, rec):
     op = r["op"]
     if op == "cmp3":
         cfg = [cfg[0], "-std=c++20"]
-    exe, err = build_harness(wd, files, cfg[0], cfg[1].replace("-std=", ""), "rp")
+    exe, fails, _dead = build_harness(wd, files, cfg[0], cfg[1].replace("-std=", ""), "rp")
     if exe is None:
-        print("replay: harness does not build:", err["output"][-1500:])
+        print("replay: harness does not build:", fails[0]["output"][-1500:])
+        print(f"VIOLATION property={prop} replay={rec.get('_path', '<given>')} no-failing-input-found")
         return 1
     v1, v2 = int(r["v1"]), int(r["v2"])
     cpp20 = cfg[1].endswith("c++20")
